@@ -78,6 +78,11 @@ type Case struct {
 	Loads    []int `json:"loads,omitempty"`
 	Try      []int `json:"try,omitempty"`
 	CloseErr bool  `json:"close_err,omitempty"` // Object.Close returns an error
+	// Adv: number of schedulable "advance the fake clock by closeTimeout+1s" events. One is
+	// offered as a choice whenever a load or an Object.Close is parked and no TryClose is
+	// (a load / close that outlasts the cache's close deadline: real loads do I/O and need
+	// not return promptly on cancellation).
+	Adv int `json:"adv,omitempty"`
 	// stress only
 	Workers int   `json:"workers,omitempty"` // ops are dealt round-robin to this many free-running goroutines (0: one per op)
 	Yields  []int `json:"yields,omitempty"`  // what a gate does in stress mode, consumed cyclically: 0 nothing, 1 Gosched, 2 Gosched x8, 3 sleep 5us
@@ -122,6 +127,7 @@ type inst struct {
 	closedT int // logical time the closing call returned; 0 = open
 	closeOp int // op in whose goroutine it was closed (-1: prelude/epilogue/unknown)
 	busyTry bool
+	gaveUp  bool // a TryClose on it answered busy after a cache Close had begun
 }
 
 func (x *inst) name() string { return fmt.Sprintf("%s#%d", x.id, x.no) }
@@ -139,22 +145,23 @@ type harness struct {
 	ctl   *sched.Ctl
 	cache ocache.OCache
 
-	mu          sync.Mutex
-	phase       int // 0 prelude, 1 main, 2 epilogue
-	insts       []*inst
-	loadNo      int
-	tryNo       int
-	inflight    map[string]int
-	viol        []string
-	excluded    string // signature of a known finding excluded by construction (none at present)
-	results     []string
-	closeStartT int // first cache Close op started
-	closeDoneT  int // first cache Close op returned nil
-	closeOps    int
-	classes     map[string]bool
-	loadsMain   int
-	rmTarget    map[int]*inst // RemoveSame ops: the instance passed
-	handed      []handed      // instances handed to callers
+	mu             sync.Mutex
+	phase          int // 0 prelude, 1 main, 2 epilogue
+	insts          []*inst
+	loadNo         int
+	tryNo          int
+	inflight       map[string]int
+	viol           []string
+	excluded       string // signature of a known finding excluded by construction (none at present)
+	results        []string
+	closeStartT    int // first cache Close op started
+	closeDoneT     int // first cache Close op returned nil
+	closeOps       int
+	classes        map[string]bool
+	loadsMain      int
+	advDuringClose bool          // the clock was advanced past the close deadline while a cache Close was running
+	rmTarget       map[int]*inst // RemoveSame ops: the instance passed
+	handed         []handed      // instances handed to callers
 }
 
 // handed is one instance given to a caller by Get / Pick / ForEach.
@@ -304,6 +311,9 @@ func (o *object) TryClose(time.Duration) (bool, error) {
 	defer h.mu.Unlock()
 	x.busyTry = false
 	if verdict == tryBusy {
+		if h.closeStartT > 0 {
+			x.gaveUp = true
+		}
 		h.ctl.Log("try-end", x.name(), verdict, "busy")
 		return false, nil
 	}
